@@ -7,7 +7,7 @@
    relabellings (size-n1 subsets of the pool taken as the first sample) whose 2U is <= w. *)
 From Coq Require Import List ZArith QArith Permutation.
 From MM Require Import Base.Num Base.GEComb Base.GESort Spec.Ucount Model.GEChoose Model.Udist Model.Utest
-  Proofs.Utest Proofs.UtestP.
+  Proofs.Utest Proofs.UtestP Proofs.UtestLaws Proofs.UtestSym Proofs.UtestSymLaws Check.GEMw Proofs.CheckMw.
 Import ListNotations.
 Local Open Scope Z_scope.
 
@@ -75,6 +75,109 @@ Theorem C01_two_sided_refuted : exists x1 x2 : list Z,
 Proof. exact mw_two_sided_refuted. Qed.
 Print Assumptions C01_two_sided_refuted.
 
+(* ---- the two-sided value ---- *)
+(* "all C(n1+n2,n1) relabellings of the pooled values" is well defined: the counts do not depend on the
+   order in which the pooled values are listed *)
+Theorem C01_pool_order_irrelevant : forall {A} (cmp : A -> A -> comparison) (z z' : list A) n w,
+  Permutation z z' -> count_le cmp z n w = count_le cmp z' n w /\ count_eq cmp z n w = count_eq cmp z' n w.
+Proof. intros A cmp z z' n w H. exact (conj (count_le_perm cmp z z' n w H) (count_eq_perm cmp z z' n w H)). Qed.
+Print Assumptions C01_pool_order_irrelevant.
+
+(* the specified LocationDiffers value of the model IS min(1, 2 min(Pr[U'<=U], Pr[U'>=U])) over the
+   relabellings — for EVERY tie vector *)
+Theorem C01_spec_two_sided_is_perm_tails : forall {A} (cmp : A -> A -> comparison), total_preorder cmp ->
+  forall x1 x2 : list A, x1 <> [] -> x2 <> [] ->
+  let s := mw_stat cmp x1 x2 in length (ms_T s) <> 1%nat ->
+  let Ct := C (length x1 + length x2) (length x1) in
+  (mw_spec_p (udist_cdf (length x1) (length x2) (ms_T s)) (length x1) (length x2) (ms_twoU s) 0 ==
+   Qminb 1 (2 * Qminb (inject_Z (count_le cmp (pool cmp x1 x2) (length x1) (ms_twoU s)) / inject_Z Ct)
+                      (inject_Z (Ct - count_le cmp (pool cmp x1 x2) (length x1) (ms_twoU s - 1)) / inject_Z Ct)))%Q.
+Proof. intros A cmp (Hr & Ha & Ht). exact (mw_spec_two_sided_is_perm_tails cmp Hr Ha Ht). Qed.
+Print Assumptions C01_spec_two_sided_is_perm_tails.
+
+(* for a palindromic tie vector (T = rev T) the null distribution of U is symmetric about n1 n2 / 2 ... *)
+Theorem C01_null_distribution_symmetric : forall {A} (cmp : A -> A -> comparison), total_preorder cmp ->
+  forall x1 x2 : list A, let s := mw_stat cmp x1 x2 in
+  length (ms_T s) <> 1%nat -> rev (ms_T s) = ms_T s ->
+  forall w, count_eq cmp (pool cmp x1 x2) (length x1) w =
+            count_eq cmp (pool cmp x1 x2) (length x1) (2 * Z.of_nat (length x1) * Z.of_nat (length x2) - w).
+Proof. intros A cmp (Hr & Ha & Ht). exact (mw_null_distribution_symmetric cmp Hr Ha Ht). Qed.
+Print Assumptions C01_null_distribution_symmetric.
+(* ... hence the value the code computes, 2 CDF(min(U1,U2)) (1 when U1 = U2), equals the specified
+   min(1, 2 min(Pr[U'<=U], Pr[U'>=U])): finding D2 is confined to NON-palindromic tie vectors *)
+Theorem C01_two_sided_symmetric : forall {A} (cmp : A -> A -> comparison), total_preorder cmp ->
+  forall x1 x2 : list A, x1 <> [] -> x2 <> [] ->
+  let s := mw_stat cmp x1 x2 in length (ms_T s) <> 1%nat -> rev (ms_T s) = ms_T s ->
+  (mw_exact_p (udist_cdf (length x1) (length x2) (ms_T s)) (length x1) (length x2) (ms_twoU s) 0 ==
+   mw_spec_p (udist_cdf (length x1) (length x2) (ms_T s)) (length x1) (length x2) (ms_twoU s) 0)%Q.
+Proof. intros A cmp (Hr & Ha & Ht). exact (mw_two_sided_symmetric cmp Hr Ha Ht). Qed.
+Print Assumptions C01_two_sided_symmetric.
+(* in particular whenever no two pooled values are equal *)
+Theorem C01_two_sided_untied : forall {A} (cmp : A -> A -> comparison), total_preorder cmp ->
+  forall x1 x2 : list A, x1 <> [] -> x2 <> [] ->
+  let s := mw_stat cmp x1 x2 in length (ms_T s) <> 1%nat -> ms_ties s = false ->
+  (mw_exact_p (udist_cdf (length x1) (length x2) (ms_T s)) (length x1) (length x2) (ms_twoU s) 0 ==
+   mw_spec_p (udist_cdf (length x1) (length x2) (ms_T s)) (length x1) (length x2) (ms_twoU s) 0)%Q.
+Proof. intros A cmp (Hr & Ha & Ht). exact (mw_two_sided_untied cmp Hr Ha Ht). Qed.
+Print Assumptions C01_two_sided_untied.
+
+(* ---- method selection and error cases ---- *)
+(* hasTies <-> fewer distinct pooled values than values; the exact method runs exactly when both sample
+   sizes are within the limit that applies (MannWhitneyTiesExactLimit with ties, MannWhitneyExactLimit
+   without), for ANY values of the two limit variables; otherwise the normal approximation *)
+Theorem C01_exact_selected_iff : forall {A} (cmp : A -> A -> comparison), total_preorder cmp ->
+  forall (cdf : nat -> nat -> list nat -> Q -> Q) EL TL (x1 x2 : list A) alt, x1 <> [] -> x2 <> [] ->
+  let s := mw_stat cmp x1 x2 in let n1 := length x1 in let n2 := length x2 in
+  length (ms_T s) <> 1%nat ->
+  (ms_ties s = true <-> (length (ms_T s) < n1 + n2)%nat) /\
+  ((exists p ps, mw_test cmp cdf EL TL x1 x2 alt = MWExact n1 n2 (twoU_pairs cmp x1 x2) p ps) <->
+   (Z.of_nat n1 <= (if ms_ties s then TL else EL) /\ Z.of_nat n2 <= (if ms_ties s then TL else EL))) /\
+  ((exists num sig, mw_test cmp cdf EL TL x1 x2 alt = MWApprox n1 n2 (twoU_pairs cmp x1 x2) num sig) <->
+   ~ (Z.of_nat n1 <= (if ms_ties s then TL else EL) /\ Z.of_nat n2 <= (if ms_ties s then TL else EL))).
+Proof. intros A cmp (Hr & Ha & Ht). exact (mw_exact_selected_iff cmp Hr Ha Ht). Qed.
+Print Assumptions C01_exact_selected_iff.
+(* the inputs the statement excludes: an empty sample <-> ErrSampleSize, all pooled values equal <-> ErrSamplesEqual *)
+Theorem C01_error_cases : forall {A} (cmp : A -> A -> comparison), total_preorder cmp ->
+  forall cdf EL TL (x1 x2 : list A) alt,
+  (mw_test cmp cdf EL TL x1 x2 alt = MWErrSize <-> (x1 = [] \/ x2 = [])) /\
+  (x1 <> [] -> x2 <> [] -> (mw_test cmp cdf EL TL x1 x2 alt = MWErrEqual <-> all_equal cmp (x1 ++ x2))).
+Proof.
+  intros A cmp (Hr & Ha & Ht) cdf EL TL x1 x2 alt.
+  exact (conj (mw_err_size_iff cmp cdf EL TL x1 x2 alt) (mw_err_equal_iff cmp Hr Ha Ht cdf EL TL x1 x2 alt)).
+Qed.
+Print Assumptions C01_error_cases.
+
+(* ---- what the correspondence check establishes (Check/GEMw.v, Check/C01.v) ---- *)
+(* the executable distribution table the comparator evaluates IS the model's UDist.CDF on every real argument,
+   so the expected p-values of the check are the model's (and hence, by the theorems above, the specified ones) *)
+Theorem C01_check_table_is_cdf : forall {A} (cmp : A -> A -> comparison), total_preorder cmp ->
+  forall x1 x2 : list A, x1 <> [] -> x2 <> [] ->
+  let s := mw_stat cmp x1 x2 in length (ms_T s) <> 1%nat ->
+  forall u : Q, (table_cdf (length x1) (length x2) (ms_T s) u == udist_cdf (length x1) (length x2) (ms_T s) u)%Q.
+Proof. intros A cmp (Hr & Ha & Ht). exact (table_cdf_is_udist_cdf cmp Hr Ha Ht). Qed.
+Print Assumptions C01_check_table_is_cdf.
+(* a run the comparator accepts with code V_OK: arguments and limit variables intact; for EVERY call the status,
+   N1, N2, U (exactly), the echoed alternative and P (within 1e-10 + 1e-9 |P| of the SPECIFIED value on the exact
+   branch; within 1e-9 of the tail expression over the implementation's own Phi at the model's z otherwise)
+   agree with the model result on the exactly decoded inputs *)
+Theorem C01_check_ok_sound : forall run tag, check_run run = (V_OK, tag, None) ->
+  r_pure run = 1 /\
+  Forall (fun c => call_ok (mw_test Qcompare udist_cdf (r_EL run) (r_TL run) (r_x1 run) (r_x2 run) (c_alt c)) c) (r_calls run).
+Proof. exact check_run_ok_sound. Qed.
+Print Assumptions C01_check_ok_sound.
+(* a run accepted with ANY code (no mismatch): each call is as above, or is the known finding D2 — P near the legacy
+   two-sided value and NOT near the specified one — which can only happen for the two-sided alternative on a
+   non-palindromic tie vector *)
+Theorem C01_check_accept_sound : forall run code tag, check_run run = (code, tag, None) ->
+  r_pure run = 1 /\
+  Forall (fun c => let r := mw_test Qcompare udist_cdf (r_EL run) (r_TL run) (r_x1 run) (r_x2 run) (c_alt c) in
+                   call_ok r c \/
+                   (call_d2 r c /\ c_alt c = 0 /\
+                    rev (ms_T (mw_stat Qcompare (r_x1 run) (r_x2 run))) <> ms_T (mw_stat Qcompare (r_x1 run) (r_x2 run))))
+         (r_calls run).
+Proof. exact check_run_accept_sound. Qed.
+Print Assumptions C01_check_accept_sound.
+
 (* ---------- non-vacuity ---------- *)
 Example C01_Z_is_total_preorder : total_preorder Z.compare.
 Proof. exact (conj Zcmp_refl (conj Zcmp_antisym Zcmp_trans)). Qed.
@@ -90,3 +193,20 @@ Example C01_examples :
   (match mw_test Z.compare udist_cdf 50 25 [5; 1; 4] [2; 3; 6; 0] (-1) with MWExact 3 4 14 p _ => Qred p = (24 # 35)%Q | _ => False end) /\
   count_le Z.compare (pool Z.compare [5; 1; 4] [2; 3; 6; 0]) 3 14 = 24.
 Proof. vm_compute. repeat split; reflexivity. Qed.
+(* palindromic tied input (T = [2;1;2]): hypotheses of C01_two_sided_symmetric hold, both values 4/5;
+   untied input: hypothesis of C01_two_sided_untied; both sides of the selection rule *)
+Example C01_palindromic_examples :
+  ms_T (mw_stat Z.compare [1; 3; 3] [1; 2]) = [2; 1; 2]%nat /\
+  rev (ms_T (mw_stat Z.compare [1; 3; 3] [1; 2])) = ms_T (mw_stat Z.compare [1; 3; 3] [1; 2]) /\
+  (match mw_test Z.compare udist_cdf 50 25 [1; 3; 3] [1; 2] 0 with
+   | MWExact 3 2 9 p ps => Qred p = Qred ps | _ => False end) /\
+  ms_ties (mw_stat Z.compare [5; 1; 4] [2; 3; 6; 0]) = false /\
+  (match mw_test Z.compare udist_cdf 2 25 [1; 3; 3] [1; 2] 0 with MWExact _ _ _ _ _ => True | _ => False end) /\
+  (match mw_test Z.compare udist_cdf 50 2 [1; 3; 3] [1; 2] 0 with MWApprox 3 2 9 _ _ => True | _ => False end) /\
+  (match mw_test Z.compare udist_cdf 2 25 [5; 1; 4] [2; 3; 6; 0] 0 with MWApprox 3 4 14 _ _ => True | _ => False end).
+Proof. vm_compute. repeat split; reflexivity. Qed.
+(* the hypothesis of C01_check_ok_sound is satisfiable: a run (one call, LocationLess, P = 9/10) the comparator accepts *)
+Example C01_check_accepts_example :
+  check_run (mkRun 50 25 [1; 3; 3]%Q [1; 2]%Q [mkCall (-1) 0 3 2 (XFin (9 # 2)) (XFin (9 # 10)) (-1) (XFin 0) (XFin 0)] 1)
+  = (V_OK, 34, None).
+Proof. vm_compute. reflexivity. Qed.
